@@ -36,6 +36,8 @@ ghost enum SyncCall {
     Close(NamespaceId),
     /// `has_news_for_us(ns, heads)` was asked; the flag records whether the store answered `Ok(Some(_))` (news)
     HasNewsForUs(NamespaceId, AuthorHeads, bool),
+    /// `insert_remote(ns, entry, from, content_status)`: the only way a gossiped entry reaches the store
+    InsertRemote(NamespaceId, SignedEntry, [u8; 32], ContentStatus),
 }
 
 /// `crate::actor::SyncHandle`: handle to the replica-store thread. Ghost view `calls()`: the state-changing requests
@@ -122,8 +124,21 @@ impl AnyhowError {
 pub struct PostcardError { _p: u8 }
 /// the postcard encoding of a value (deterministic function of the value, A-postcard)
 pub uninterp spec fn postcard_bytes<T>(v: T) -> Seq<u8>;
+/// postcard decoding: a partial function of the bytes (A-postcard)
+pub uninterp spec fn postcard_decode<T>(b: Seq<u8>) -> Option<T>;
+impl From<PostcardError> for AnyhowError {
+    #[verifier::external_body]
+    fn from(e: PostcardError) -> AnyhowError { unimplemented!() }
+}
 pub mod postcard {
     use super::*;
+    /// `postcard::from_bytes::<T>(&bytes)`: the only call sites pass `&Bytes` (deref to `&[u8]`), hence that parameter type
+    #[verifier::external_body]
+    pub fn from_bytes<T>(s: &Bytes) -> (r: std::result::Result<T, PostcardError>)
+        ensures
+            r is Ok <==> postcard_decode::<T>(s@) is Some,
+            r is Ok ==> r->Ok_0 == postcard_decode::<T>(s@)->Some_0,
+    { unimplemented!() }
     #[verifier::external_body]
     pub fn to_stdvec<T>(value: &T) -> (r: std::result::Result<Vec<u8>, PostcardError>)
         ensures r is Ok ==> r->Ok_0@ == postcard_bytes(*value)
@@ -131,8 +146,20 @@ pub mod postcard {
 }
 
 /// field types of `LiveActor` that the verified handlers never touch: opaque
-#[verifier::external_body]
-pub struct ToLiveActor { _p: u8 }
+/// channel / connection types that only occur as fields of `ToLiveActor` messages: opaque
+pub mod sync {
+    pub mod oneshot {
+        #[verifier::external_body]
+        #[verifier::reject_recursive_types(T)]
+        pub struct Sender<T> { _p: std::marker::PhantomData<T> }
+    }
+}
+pub mod iroh {
+    pub mod endpoint {
+        #[verifier::external_body]
+        pub struct Connection { _p: u8 }
+    }
+}
 #[verifier::external_body]
 pub struct ReplicaEvent { _p: u8 }
 #[verifier::external_body]
@@ -147,12 +174,33 @@ pub struct MemoryLookup { _p: u8 }
 pub struct ProvidersCell { _p: u8 }
 pub struct ProviderNodes(pub ProvidersCell);
 pub mod mpsc {
+    use super::*;
     #[verifier::external_body]
     #[verifier::reject_recursive_types(T)]
     pub struct Receiver<T> { _p: std::marker::PhantomData<T> }
     #[verifier::external_body]
     #[verifier::reject_recursive_types(T)]
     pub struct Sender<T> { _p: std::marker::PhantomData<T> }
+    #[verifier::external_body]
+    #[verifier::reject_recursive_types(T)]
+    pub struct SendError<T> { _p: std::marker::PhantomData<T> }
+    /// tokio `mpsc::Sender::send`: delivers the value to the receiving task or fails because the receiver is gone.
+    /// Ghost view `sent()`: the values delivered so far; `closed()`: the receiver is gone. `&mut self` only so that
+    /// the ghost log can advance (real: `&self`).
+    impl<T> Sender<T> {
+        pub uninterp spec fn sent(&self) -> Seq<T>;
+        pub uninterp spec fn closed(&self) -> bool;
+        #[verifier::external_body]
+        pub async fn send(&mut self, value: T) -> (r: std::result::Result<(), SendError<T>>)
+            ensures
+                r is Ok ==> final(self).sent() == old(self).sent().push(value),
+                r is Err ==> final(self).sent() == old(self).sent() && final(self).closed(),
+        { unimplemented!() }
+    }
+}
+impl<T> From<mpsc::SendError<T>> for AnyhowError {
+    #[verifier::external_body]
+    fn from(e: mpsc::SendError<T>) -> AnyhowError { unimplemented!() }
 }
 pub mod async_channel {
     #[verifier::external_body]
